@@ -492,8 +492,12 @@ Section Abs.
     let nm := member_of_event e in
     let tpi := match nm with Some m => m_tpi m | None => None end in
     let via := match nm with Some m => m_via m | None => [] end in
+    (* thirdPartyInviteToken: an invite without a token is refused, no event is looked up *)
     let tpi_raw := match tpi with
-                   | Some t => find_auth tpi_type (t_token t) auths
+                   | Some t => match t_token t with
+                               | [] => None
+                               | _ => find_auth tpi_type (t_token t) auths
+                               end
                    | None => None
                    end in
     let tpi_ev := option_map tpi_event_keys tpi_raw in
